@@ -552,6 +552,9 @@ def build_txdbus_message(MSG, msg, oobFDs=None):
     f = msg['fields']
     body = to_py_list(msg['sig'], msg['trees'], msg['pres']) if msg['sig'] else None
     sig = msg['sig'] if msg['sig'] else None
+    if not msg['sig']:
+        # "no body" has several spellings a caller may use; all of them must give a well-formed, body-less message
+        sig, body = [(None, None), ('', None), ('', []), (None, [])][msg.get('serial', 0) % 4]
     t = msg['type']
     if t == 1:
         kw = {}
